@@ -629,7 +629,7 @@ def run(chk):
 			chk.case("equal_cells", {"pair": pair, "where": where}, "equal-cells")
 	for kind in ("decimal", "frozen-dataclass", "tuple-like", "slice"):
 		chk.case("type_history", {"kind": kind}, "type-history")
-	for new in ([7], [0, 0, 7], [0, 0, 0, 0, 7], [0.0, 7], [False, 7]):
+	for new in ([7], [0, 0, 7], [0, 0, 0, 0, 7], [7, 0], [0, 7, 0]):      # (vectors that are NOT equal to the cell they replace: [False, 7] or [0.0, 7] would be)
 		chk.case("zero_hash_cells", {"what": "vector-cell-length", "new": new}, "zero-hash-cells")
 	chk.case("zero_hash_cells", {"what": "zeros-vs-shorter"}, "zero-hash-cells")
 	chk.case("zero_hash_cells", {"what": "zero-columns"}, "zero-hash-cells")
